@@ -91,6 +91,12 @@ def gen_data(rng, method, n=None, m=None, extra=None, declared=None, positive=Fa
             mp['weights'] = {c: PU * w for c, w in zip(cs, ws)}
         elif rng.random() < 0.4:
             mp['currentChoice'] = rng.choice(chose + [a['id'] for a in known])
+    # method parameters may hold entries for criteria that are not declared (allowed input)
+    if rng.random() < 0.15:
+        if method in ('majorityHeuristic', 'aspectEliminationHeuristic'):
+            mp['weights']['zz_undeclared'] = PU * rng.choice([1, 4, 20])
+        elif method == 'electreIII':
+            mp['electreCriteria']['zz_undeclared'] = {'k': PU * rng.choice([1, 4, 20])}
     return {'preferenceFunction': method, 'knownAlternatives': known, 'choseToMake': chose, 'criteria': crits,
             'methodParameters': mp, 'biases': [], 'biasApplyRandomSeed': rng.randint(0, 10 ** 6)}
 
